@@ -160,6 +160,64 @@ PARSED_FAMILIES = [
 ]
 
 
+MS_FILE = '''
+field.note = uppercase(field.note)
+
+[Uber]
+match: contains("UBER")
+category: Transport
+subcategory: Rideshare
+
+[Uber Eats]
+match: contains("UBER") and contains("EATS")
+category: Food
+subcategory: Delivery
+tags: meals
+
+[Tagger]
+match: contains("EATS")
+tags: eats
+'''
+MS_DESCS = ['UBER EATS 12', 'UBER TRIP', 'EATS ONLY', 'zz']
+MS_EXPECT = [('Food', 'Delivery'), ('Transport', 'Rideshare'), ('Unknown', 'Unknown'), ('Unknown', 'Unknown')]
+_MS_PATH = {}
+
+
+def ms_file(first):
+    """A real .rules file whose less specific rule comes first, loaded the way a program does it: `first` (transforms / tag-only
+    rules / rules in the DEFAULT mode) and then get_all_rules(path, 'most_specific').  The mode asked for last decides."""
+    import os
+    import tempfile
+    if 'p' not in _MS_PATH:
+        d = tempfile.mkdtemp(prefix='verif_c09_')
+        _MS_PATH['p'] = os.path.join(d, 'merchants.rules')
+        with open(_MS_PATH['p'], 'w') as f:
+            f.write(MS_FILE)
+    path = _MS_PATH['p']
+
+    def ob(di: int, again: bool) -> bool:
+        """
+        pre: 0 <= di <= 3
+        post: _
+        """
+        from engine.ob import pick
+        from tally import merchant_utils
+        reset_tally_caches()
+        di = pick(di, 4)
+        if first == 'transforms':
+            merchant_utils.get_transforms(path)
+        elif first == 'tagonly':
+            merchant_utils.get_tag_only_rules(path)
+        elif first == 'rules-default':
+            merchant_utils.get_all_rules(path)
+        rules = merchant_utils.get_all_rules(path, match_mode='most_specific')
+        if again:
+            rules = merchant_utils.get_all_rules(path, match_mode='most_specific')
+        m, c, s_, info = merchant_utils.normalize_merchant(MS_DESCS[di], rules, amount=12.0)
+        return post((c, s_) == MS_EXPECT[di])
+    return ob
+
+
 def spec_equal(expr):
     """calculate_specificity agrees with the AST measure (concrete expression, symbolic priority)."""
     def ob(p: int) -> bool:
@@ -218,6 +276,9 @@ def obligations(tier, seed):
                               params={'n': n, 'cats': cats, 'subs': subs}, timeout=200 if tier == 'quick' else 1200,
                               group='ranking, symbolic specificity',
                               bounds=f'{n} rules; truth vector, priorities and all three specificity components symbolic (ints >= 0, unbounded)'))
+    for first in ['none', 'transforms', 'tagonly', 'rules-default']:
+        obs.append(Obligation(id=f'ms-file-after-{first}', factory='ms_file', params={'first': first}, timeout=60, group='engine built by the real parser',
+                              bounds=f'a real rules file (less specific rule first) loaded with get_all_rules(path, most_specific) after {first}; 4 descriptions (symbolic index)'))
     for fam in range(len(PARSED_FAMILIES)):
         obs.append(Obligation(id=f'parsed-{fam}', factory='ms_parsed', params={'fam': fam}, timeout=60,
                               group='engine built by the real parser',
